@@ -1,4 +1,5 @@
 import Hgxv.Proofs.C05WF
+import Hgxv.Proofs.C05Node
 import Hgxv.Proofs.C05LinkC01
 import Hgxv.Proofs.C05GetEdges
 /-! # C05 — sub-hypergraph extraction and copy are faithful and leave the source untouched
@@ -19,9 +20,10 @@ variable {κ : Type} [DecidableEq κ] [Keyed κ]
 
 /-- every history of `add_node, add_edge, remove_edge, set_weight, set_node_metadata, set_edge_metadata,
 set_attr_to_node_metadata, set_attr_to_edge_metadata, set_incidence_metadata, get_incidence_metadata(..)[f] = v,
-add_empty_edge, set_hypergraph_metadata, set_attr_to_hypergraph_metadata` (rejected calls included) ends in a
-well-formed object -/
-theorem C05_wf_reachable (w : Bool) (ops : List (Op κ)) : WF (run (empty w : Content κ) ops) :=
+add_empty_edge, set_hypergraph_metadata, set_attr_to_hypergraph_metadata, add_nodes (with and without the metadata table),
+remove_node (with and without keep_edges), clear` (rejected calls included) ends in a well-formed object.
+`KeyedLaws κ` holds for both key types (instances in `Proofs/C05Node.lean`). -/
+theorem C05_wf_reachable [KeyedLaws κ] (w : Bool) (ops : List (Op κ)) : WF (run (empty w : Content κ) ops) :=
   wf_run _ ops (wf_empty w)
 
 /-- `subhypergraph(nodes)`: succeeds; same weightedness; the hyperedges are exactly the source's hyperedges
@@ -373,6 +375,110 @@ theorem C05_extract_fresh_aux (src r : Content κ) :
           exact fold_aux _ (aux (empty src.weighted : Content κ)) (fun h a h' e => copyEdgeMeta_aux src h h' a e) _ _ _ hy e
   · intro e; subst e; rfl
 
+/-- `clear()`: no nodes, no hyperedges, no incidence metadata are left, the weighted flag stays, the object is well-formed (so
+every extraction theorem applies to it); `Hypergraph.clear()` also empties the hypergraph-level metadata and the empty edges,
+`DirectedHypergraph.clear()` leaves its hypergraph-level metadata as it is (this is what the two classes do) -/
+theorem C05_clear (c : Content κ) :
+    WF (clear c) ∧ (clear c).weighted = c.weighted ∧ (clear c).nodes = [] ∧ (clear c).edges = [] ∧ (clear c).inc = [] ∧
+    (Keyed.clearsHyper κ = true → (clear c).hmeta = [] ∧ (clear c).emptyEdges = []) ∧
+    (Keyed.clearsHyper κ = false → (clear c).hmeta = c.hmeta ∧ (clear c).emptyEdges = c.emptyEdges) ∧
+    Keyed.clearsHyper UKey = true ∧ Keyed.clearsHyper DKey = false := by
+  refine ⟨wf_clear c, rfl, rfl, rfl, rfl, ?_, ?_, rfl, rfl⟩
+  · intro h; simp [clear, h]
+  · intro h; simp [clear, h]
+
+/-- `add_nodes(node_list)`: never rejected; the nodes afterwards are the old ones and the listed ones (once each), an old
+node keeps its metadata, a new one has `{}`; hyperedges, weights, flag, incidence / empty-edge / hypergraph metadata untouched -/
+theorem C05_add_nodes (c : Content κ) (ns : List Node) :
+    ∃ r, apply? c (.addNodes ns none) = some r ∧ r.weighted = c.weighted ∧ r.edges = c.edges ∧ aux r = aux c ∧
+      (∀ m, m ∈ nodesOf r ↔ m ∈ nodesOf c ∨ m ∈ ns) ∧ ((nodesOf c).Nodup → (nodesOf r).Nodup) ∧
+      (∀ m, getNodeMeta r m = if m ∈ nodesOf c then getNodeMeta c m else if m ∈ ns then some [] else none) :=
+  ⟨touchAll c ns, rfl, rfl, rfl, rfl, fun _ => mem_keys_touchL _ _ _, nodup_keys_touchL _ _, fun _ => get?_touchL _ _ _⟩
+
+/-- `Hypergraph.add_nodes(node_list, metadata)`: a node without an entry in the table rejects the whole batch (nothing is
+added); otherwise the call is the run of the single calls `add_node(node, metadata[node])` in the order of the list -/
+theorem C05_add_nodes_table (c : Content κ) (ns : List Node) (t : List (Node × Meta)) :
+    ((∃ n ∈ ns, n ∉ AL.keys t) → apply? c (.addNodes ns (some t)) = none) ∧
+    ((∀ n ∈ ns, n ∈ AL.keys t) →
+      apply? c (.addNodes ns (some t)) = some (run c (ns.map (fun n => Op.addNode n ((AL.get? t n).getD []))))) := by
+  constructor
+  · rintro ⟨n, hn, hout⟩
+    have : ns.all (fun n => AL.has t n) = false := by
+      rw [List.all_eq_false]
+      refine ⟨n, hn, ?_⟩
+      intro hh; exact hout ((C05AL.has_iff _ _).1 hh)
+    simp [apply?, addNodes, this]
+  · intro hall
+    have : ns.all (fun n => AL.has t n) = true :=
+      List.all_eq_true.2 (fun n hn => (C05AL.has_iff _ _).2 (hall n hn))
+    simp only [apply?, addNodes, this, ↓reduceIte, run, List.foldl_map]
+    rfl
+
+/-- `remove_node(node, keep_edges)` on a well-formed object.  An absent node: rejected (`KeyError`).  A present node (that is not
+source and target of one directed hyperedge - never the case for `Hypergraph`): accepted, whatever the hyperedges; the result is
+well-formed, has the same flag and the same incidence / empty-edge / hypergraph metadata; the node table is the old one without
+the node (the other nodes keep their metadata); NO hyperedge of the result holds the node; without `keep_edges` the hyperedges
+are exactly the old ones that do not hold the node (weights, metadata, order); with `keep_edges` the hyperedge SET is: the old
+ones that do not hold the node, and, for every old hyperedge that holds it, what is left of it without the node
+(`Keyed.without`; for a directed hyperedge only if both sides stay non-empty) -/
+theorem C05_remove_node [KeyedLaws κ] (c : Content κ) (n : Node) (keep : Bool) (hwf : WF c) :
+    (n ∉ nodesOf c → apply? c (.removeNode n keep) = none) ∧
+    (n ∈ nodesOf c → onBothSides c n = false →
+      ∃ r, apply? c (.removeNode n keep) = some r ∧ WF r ∧ r.weighted = c.weighted ∧ aux r = aux c ∧
+        r.nodes = AL.erase c.nodes n ∧ n ∉ nodesOf r ∧ (∀ m, m ≠ n → getNodeMeta r m = getNodeMeta c m) ∧
+        (∀ k ∈ keysOf r, n ∉ Keyed.members k) ∧
+        (keep = false → r.edges = c.edges.filter (fun e => decide (n ∉ Keyed.members e.1))) ∧
+        (keep = true → ∀ k, k ∈ keysOf r ↔ (k ∈ keysOf c ∧ n ∉ Keyed.members k) ∨
+             (∃ k0 ∈ keysOf c, n ∈ Keyed.members k0 ∧ Keyed.without n k0 = some k))) := by
+  constructor
+  · intro hn
+    have : AL.has c.nodes n = false := by
+      cases hh : AL.has c.nodes n with
+      | false => rfl
+      | true => exact absurd ((C05AL.has_iff _ _).1 hh) hn
+    simp [apply?, removeNode, this]
+  · intro hn htw
+    obtain ⟨c1, e1, hi1, e2⟩ := removeNode_spec c n keep hwf hn htw
+    refine ⟨_, e2, wf_removeNode c _ n keep hwf e2, hi1.2.2.2.1, hi1.2.2.2.2.1, ?_, ?_, ?_, ?_, ?_, ?_⟩
+    · show AL.erase c1.nodes n = _
+      rw [hi1.2.2.2.2.2]
+    · show n ∉ AL.keys (AL.erase c1.nodes n)
+      rw [hi1.2.2.2.2.2, ← AL.get?_eq_none_iff]
+      exact AL.get?_erase_self _ _ hwf.nodes_nodup
+    · intro m hm
+      show AL.get? (AL.erase c1.nodes n) m = _
+      rw [hi1.2.2.2.2.2]
+      exact AL.get?_erase_ne _ _ _ (fun e => hm e.symm)
+    · intro k hk
+      have h0 := keys_filter c1.edges (fun k => decide (n ∉ Keyed.members k))
+      have hk' : k ∈ (AL.keys c1.edges).filter (fun k => decide (n ∉ Keyed.members k)) := by rw [← h0]; exact hk
+      exact of_decide_eq_true (List.mem_filter.1 hk').2
+    · intro hk
+      subst hk
+      simp only [Bool.false_eq_true, ↓reduceIte, Option.some.injEq] at e1
+      subst e1
+      rfl
+    · intro hk
+      subst hk
+      simp only [↓reduceIte] at e1
+      intro k
+      have h0 := keys_filter c1.edges (fun k => decide (n ∉ Keyed.members k))
+      have hkeys : k ∈ AL.keys (c1.edges.filter (fun e => decide (n ∉ Keyed.members e.1))) ↔
+          k ∈ keysOf c1 ∧ n ∉ Keyed.members k := by
+        rw [h0, List.mem_filter]
+        simp [keysOf]
+      show k ∈ AL.keys (c1.edges.filter (fun e => decide (n ∉ Keyed.members e.1))) ↔ _
+      rw [hkeys]
+      constructor
+      · rintro ⟨h1, h2⟩
+        rcases hi1.2.2.1 k h1 with h3 | h3
+        · exact .inl ⟨h3, h2⟩
+        · exact .inr h3
+      · rintro (⟨h1, h2⟩ | ⟨k0, h1, h2, h3⟩)
+        · exact ⟨hi1.2.1 k h1, h2⟩
+        · refine ⟨?_, KeyedLaws.without_not_mem n k0 k h3⟩
+          exact (foldShrink_has n _ c c1 e1).2 k0 ((KeyedLaws.mem_incident n _ k0).2 ⟨h1, h2⟩) k h3
+
 /-- the source is untouched: storing ANY extraction `f` of slot `i` (one of the functions above, `copy`, an
 extraction that raises) into another slot `j` changes no slot but `j`; in particular slot `i` holds the same
 object before and after.  (The extraction functions are functions of the source's value; on the code the
@@ -515,6 +621,36 @@ example : AL.get? (runSlots (extractInto [(0, exAuxSrc)] 0 1 (fun x => some (cop
     = some { exAuxSrc with emptyEdges := [(0, [(1, 0)]), (1, [])],
                            inc := [((([2, 1], []), 2), [(0, 0), (1, 1)]), ((([4], []), 4), [])] } := by decide
 
+-- `C05_remove_node` / `C05_add_nodes(_table)` / `C05_clear` on the D19 source (hyperedges (1,2): 24, (2,3,4): 28, (4,): 8)
+example : ∃ r, removeNode exSrc 2 true = some r ∧ r.nodes = [(9, [(2, 0)]), (1, [(0, 0)]), (3, []), (4, [])] ∧
+    r.edges = [([4], (8, [])), ([1], (24, [(1, 1)])), ([3, 4], (28, [(1, 2)]))] := by decide
+-- the shrunk hyperedge exists already: weights add up, metadata replaced
+example : ∃ r, removeNode (run exSrc [.addEdge [3, 4] (some 4) [(5, 5)]]) 2 true = some r ∧
+    r.edges = [([4], (8, [])), ([3, 4], (32, [(1, 2)])), ([1], (24, [(1, 1)]))] := by decide
+example : ∃ r, removeNode exSrc 2 false = some r ∧ r.edges = [([4], (8, []))] ∧ nodesOf r = [9, 1, 3, 4] := by decide
+-- a singleton hyperedge becomes the node-less hyperedge `()`
+example : ∃ r, removeNode exSrc 4 true = some r ∧
+    r.edges = [([1, 2], (24, [(1, 1)])), ([2, 3], (28, [(1, 2)])), ([], (8, []))] := by decide
+example : removeNode exSrc 7 true = none ∧ onBothSides exSrc 2 = false ∧ 2 ∈ nodesOf exSrc := by decide
+-- directed: a hyperedge whose side would become empty is not re-inserted
+example : ∃ r, removeNode exD 3 true = some r ∧ keysOf r = [([1], [2]), ([2], [1])] ∧ nodesOf r = [5, 1, 2] := by decide
+example : ∃ r, removeNode exD 2 true = some r ∧ keysOf r = [([3], [1])] ∧ nodesOf r = [5, 1, 3] := by decide
+example : onBothSides exLoop 1 = true ∧ removeNode exLoop 1 true = none := by decide
+example : ∃ r, addNodes exSrc [1, 50, 3] (some [(1, [(7, 7)]), (50, [(8, 8)]), (3, [(9, 9)]), (4, [])]) = some r ∧
+    r.nodes = [(9, [(2, 0)]), (1, [(0, 0)]), (2, []), (3, [(9, 9)]), (4, []), (50, [(8, 8)])] := by decide
+example : addNodes exSrc [1, 50, 3] (some [(1, [(7, 7)]), (50, [(8, 8)])]) = none := by decide
+example : ∃ r, addNodes exSrc [60, 1, 60] none = some r ∧ nodesOf r = [9, 1, 2, 3, 4, 60] := by decide
+example : clear exAuxSrc = ⟨true, [], [], [], [], []⟩ := by decide
+example : clear (run exLoop [.setHyperAttr 3 3]) = ⟨true, [], [], [], [], [(100, 1), (101, 1), (3, 3)]⟩ := by decide
+-- a history with the new operations, then an extraction (`C05_wf_reachable` + `C05_edges_sub`)
+def C05.exNodeHistory : List (Op UKey) :=
+  exHistory ++ [.removeNode 2 true, .addNodes [2, 70] (some [(2, [(3, 3)]), (70, [])]), .removeNode 77 false,
+                .addEdge [2, 70] (some 4) []]
+example : WF (run (empty true) exNodeHistory) := C05_wf_reachable true _
+example : (edgesSub (run (empty true) exNodeHistory) none (some 2) false false).map (fun r => (r.nodes, keysOf r)) =
+    some ([(3, []), (4, []), (2, [(3, 3)]), (70, [])], [[3, 4], [2, 70]]) := by decide
+
+
 /-! ## Link to the full model of `Hypergraph` (C01)
 
 The content-level semantics used in this file is not an independent invention: one call of each modelled mutator on the
@@ -525,3 +661,11 @@ theorem C05_link_C01 (a : C01.Spec) (op : C01.Op) (op' : Op UKey) (hl : liftOp o
     ofSpec (C01.Spec.apply a op).1 = step (ofSpec a) op' ∧
     ((C01.Spec.apply a op).2 = .ok ↔ (apply? (ofSpec a) op').isSome = true) :=
   link_C01 a op op' hl hwf
+
+/-- the same link for the node batches `add_nodes(node_list[, metadata])` and for `clear()` (`remove_node` is linked through the
+correspondence run only) -/
+theorem C05_link_C01_nodes (a : C01.Spec) (op : C01.Op) (op' : Op UKey) (hl : liftOp2 op = some op')
+    (hwf : WF (ofSpec a)) :
+    ofSpec (C01.Spec.apply a op).1 = step (ofSpec a) op' ∧
+    ((C01.Spec.apply a op).2 = .ok ↔ (apply? (ofSpec a) op').isSome = true) :=
+  link_C01_nodes a op op' hl hwf
